@@ -81,7 +81,46 @@ def specStr (h : List Op) : String :=
     s!"I {joinSp i} | W {joinSp w} | D {joinSp d}"
   else "-"
 
+/- `rerun9 J<job> (F<job> S<l>@<n>:<v>*)* <op>*` : the `.paux` files found in the directory, then the document -/
+def entry? (w : String) : Option Entry :=
+  match (tail1 w).splitOn "@" with
+  | [l, r] =>
+    match r.splitOn ":" with
+    | [n, v] => do pure ⟨← l.toNat?, ← n.toNat?, ← v.toNat?⟩
+    | _ => none
+  | _ => none
+
+/-- returns (files in order, remaining words) -/
+def files? : List String → List PauxFile → Option (List PauxFile × List String)
+  | w :: ws, acc =>
+    if w.startsWith "F" then
+      match (tail1 w).toNat? with
+      | some j => files? ws (⟨j, []⟩ :: acc)
+      | none => none
+    else if w.startsWith "S" then
+      match entry? w, acc with
+      | some e, f :: rest => files? ws (⟨f.job, f.entries ++ [e]⟩ :: rest)
+      | _, _ => none
+    else some (acc.reverse, w :: ws)
+  | [], acc => some (acc.reverse, [])
+
+def specStrX (job : Nat) (files : List PauxFile) (h : List Op) : String :=
+  if LabelsDistinct h ∧ RefKeysDistinct h ∧ ForeignOk job files h then
+    let refs := h.filterMap fun | .ref r s l => if l = 0 then none else some (r, s, l) | _ => none
+    let i := refs.map fun (r, s, l) => s!"{r}.{s}={resStr (resolveSpecX job files h l)}"
+    let w := refs.map fun (r, s, l) => s!"{r}.{s}={optNat (numberSpecX job files h l)}"
+    let d := (nodesOf h).filterMap fun n => (identOf h n).map fun l => s!"{n}={l}"
+    s!"I {joinSp i} | W {joinSp w} | D {joinSp d}"
+  else "-"
+
 def handle : List String → String
+  | "rerun9" :: j :: ws =>
+    match (if j.startsWith "J" then (tail1 j).toNat? else none), files? ws [] with
+    | some job, some (files, rest) =>
+      match rest.mapM op? with
+      | some h => s!"{stateStr h (compileParse job files h)}\t{specStrX job files h}"
+      | none => "bad-op"
+    | _, _ => "bad-op"
   | "lbl" :: ws | "doc9" :: ws =>
     match ws.mapM op? with
     | some h => s!"{stateStr h (run h)}\t{specStr h}"
